@@ -104,7 +104,11 @@ def do_encode(cells, f, ref_override=None):
     main = cells[-1]
     roots = [main]
     for _ in range(f['nroots'] - 1):
-        roots.append(rng.choice(cells))
+        c = rng.choice(cells)
+        # serialized_boc requires roots + absent <= cells, and a strict reader may refuse a root listed twice: the extra roots are
+        # DISTINCT cells (as hashes: equal cells are one cell of the bag)
+        if all(c.hash != r.hash for r in roots):
+            roots.append(c)
     order = refboc.random_topo_order(roots, random.Random(f['order_seed']))
     n = len(order)
     size = min(4, refboc.min_bytes(n) + f['size_extra'])
@@ -280,6 +284,10 @@ class BocWireWorld(World):
         self._times = times
         if kind == 'none':
             klass = self._freedom_class(f, roots)
+            try:
+                refboc.decode(damaged)
+            except refboc.BocFormatError as e:   # the trusted base disagrees with itself: never report that as the library's fault
+                raise AssertionError('reference encoder produced a bag its own strict decoder rejects: %r' % (e,))
             if not ok:
                 self._fail(ctx, enc_op, fault, 'valid-rejected', klass, 'a well-formed BoC (%s, %d bytes) was rejected: %r' % (klass, len(data), res))
                 return
